@@ -26,6 +26,7 @@ def run(ctx):
         ctx.guard("C02", "pipeline", lambda: effbs.scorer_pipeline(ctx, prog))
         ctx.guard("C02", "scan", lambda: effbs.scan_guards_tight(ctx, prog))
         ctx.guard("C02", "scan-exits", lambda: effbs.scan_exits(ctx, prog))
+        ctx.guard("C02", "recurrences", lambda: effbs.recurrence_steps(ctx, prog))
         ctx.guard("C02", "cap", lambda: blocksize.score_cap(ctx, prog))
         ctx.guard("C02", "raw", lambda: blocksize.raw_score(ctx, prog))
         ctx.guard("C02", "relations", lambda: blocksize.relation_predicates(ctx, prog))
